@@ -533,6 +533,9 @@ def _deque(interp, args, kwargs):
 
 
 def _chain(interp, args, kwargs):
+    depth = 1 + max([getattr(a, "chain_depth", 0) for a in args] or [0])
+    interp.emit("chain", depth=depth)
+
     def gen():
         for a in args:
             it = interp.get_iter(a)
@@ -542,7 +545,9 @@ def _chain(interp, args, kwargs):
                     break
                 yield v
 
-    return AIter(gen(), "chain")
+    out = AIter(gen(), "chain")
+    out.chain_depth = depth  # type: ignore[attr-defined]
+    return out
 
 
 def _singledispatch(interp, args, kwargs):
@@ -778,6 +783,19 @@ def _tuple_new(interp, args, kwargs):
     return vals
 
 
+def _bytesio(interp, args, kwargs):
+    data = args[0] if args else b""
+    if isinstance(data, ExtObj) and data.kind == "bytes:all":
+        src = data.attrs["stream"]
+        # the whole input was read into memory: every remaining frame is materialised now (a torn source raises here)
+        interp.emit("materialise", what="io.BytesIO(inp.read())", source=repr(src))
+        frames = interp.drain(src.attrs["frames"])
+        return ExtObj("io.stream", {"frames": AIter(iter(frames), "frames"), "header": src.attrs["header"], "seekable": True, "buffered": True, "pos": 0, "label": "bytesio", "reads": []})
+    if isinstance(data, bytes):
+        return ExtObj("io.stream", {"frames": AIter(iter([]), "frames"), "header": data, "seekable": True, "buffered": True, "pos": 0, "label": "bytesio", "reads": []})
+    raise interp.unsupported(f"io.BytesIO({data!r})")
+
+
 def _buffered_reader(interp, args, kwargs):
     raw = args[0]
     interp.emit("wrap", raw=raw)
@@ -843,6 +861,7 @@ _EXT = {
     "google.protobuf.proto.parse": _parse,
     "google.protobuf.proto.serialize_length_prefixed": _serialize_length_prefixed,
     "io.BufferedReader": _buffered_reader,
+    "io.BytesIO": _bytesio,
     "builtins.tuple.__new__": _tuple_new,
     "builtins.sum": _b_sum,
     "builtins.map": _b_map,
@@ -950,6 +969,10 @@ def getattr_ext(interp, obj: Any, name: str) -> Any:
             from . import models_rdflib
 
             return models_rdflib.getattr_(interp, obj, name)
+        if obj.kind == "io.stream" and name in ("peek", "raw", "detach"):
+            raise interp.exc("AttributeError", f"'_io.BytesIO' object has no attribute '{name}'")
+        if obj.kind == "io.BufferedReader" and name == "raw":
+            return obj.attrs["raw"]
         if obj.kind in ("io.stream", "io.BufferedReader", "io.out", "contextvars.ContextVar", "bytes:frame", "bytes:all", "bytes:header"):
             return ExtMethod(obj, obj.kind, name)
         if obj.kind == "logger":
@@ -1583,9 +1606,16 @@ def _enumtype_method(interp, et: EnumTypeRef, name: str, args: list, kwargs: dic
 # -- io objects
 
 
-def make_input(frames: Any, header: bytes | None, *, seekable: bool = True, buffered: bool = True, label: str = "inp") -> ExtObj:
-    """Abstract byte source holding a sequence of frames (iterator of Msg) and a concrete header."""
-    return ExtObj("io.stream", {"frames": frames, "header": header, "seekable": seekable, "buffered": buffered, "pos": 0, "label": label, "reads": []})
+def make_input(frames: Any, header: bytes | None, *, seekable: bool = True, buffered: bool = True, label: str = "inp", user_buffered_reader: bool = False) -> ExtObj:
+    """Abstract byte source holding a sequence of frames (iterator of Msg) and a concrete header.
+
+    buffered=True: a BytesIO-like / already buffered object whose read(n) is exact-or-EOF (it has no peek()).
+    user_buffered_reader=True: the caller hands over an io.BufferedReader around an unbuffered raw source
+    (its read(n) is exact, its peek(n) returns whatever is left in its buffer: possibly fewer bytes)."""
+    root = ExtObj("io.stream", {"frames": frames, "header": header, "seekable": seekable, "buffered": buffered and not user_buffered_reader, "pos": 0, "label": label, "reads": []})
+    if user_buffered_reader:
+        return ExtObj("io.BufferedReader", {"raw": root, "user": True})
+    return root
 
 
 def make_output() -> ExtObj:
@@ -1612,7 +1642,15 @@ def _io_method(interp, o: ExtObj, name: str, args: list, kwargs: dict) -> Any:
             return o.attrs["seekable"]
         if name in ("read", "peek", "read1", "readinto"):
             n = args[0] if args else kwargs.get("size", -1)
-            exact = (name == "read" and (is_wrapper or root.attrs["buffered"])) or (name == "peek" and is_wrapper and root.attrs["buffered"])
+            below = o.attrs["raw"] if is_wrapper else None
+            below_buffered = isinstance(below, ExtObj) and (below.kind == "io.BufferedReader" or below.attrs.get("buffered", False))
+            if name in ("peek", "read1") and not is_wrapper:
+                # BytesIO-like objects have no peek(); raw sources neither
+                if name == "peek":
+                    raise interp.exc("AttributeError", "'_io.BytesIO' object has no attribute 'peek'")
+            # read(n) on any BufferedReader / buffered object is exact-or-EOF; peek(n) does at most one read on the
+            # object below: exact only when that object is itself buffered
+            exact = (name == "read" and (is_wrapper or root.attrs["buffered"])) or (name == "peek" and is_wrapper and below_buffered)
             interp.emit("io", method=name, recv=o, n=n, exact=exact, wrapper=is_wrapper, raw_after_wrap=(not is_wrapper and root.attrs.get("wrapped", False)))
             root.attrs["reads"].append((name, n, "wrapper" if is_wrapper else "raw"))
             if n is None or (isinstance(n, int) and n < 0):
@@ -1622,7 +1660,11 @@ def _io_method(interp, o: ExtObj, name: str, args: list, kwargs: dict) -> Any:
             hdr = root.attrs["header"]
             if hdr is None:
                 return fresh_unknown("header bytes")
-            data = hdr[root.attrs["pos"] : root.attrs["pos"] + n] if isinstance(n, int) else hdr
+            if name == "peek":
+                # peek returns the whole buffered chunk (at least n bytes when exact), not just n bytes
+                data = hdr[root.attrs["pos"] :] + b"\x12\x34\x0a\x0a\x56"
+            else:
+                data = hdr[root.attrs["pos"] : root.attrs["pos"] + n] if isinstance(n, int) else hdr
             if name != "peek":
                 root.attrs["pos"] += len(data)
             return ExtObj("bytes:header", {"data": data, "exact": exact, "via": name})
